@@ -18,6 +18,17 @@ DEFAULT_RULE = ("cases come from harness/src/gen.rs (one SplitMix64 stream seede
                 "(at least one database/shell/sleep event, or a failure verdict)")
 
 PROPS = {
+    "C08": {
+        "runs": [
+            {"profile": "updatesmall", "n_quick": 0, "n_thorough": 0, "nontrivial": "update", "exhaustive": True},
+            {"profile": "updatecrash", "n_quick": 250, "n_thorough": 4000, "nontrivial": "update"},
+            {"profile": "cliupd", "kind": "cli", "n_quick": 25, "n_thorough": 400, "nontrivial": "update"},
+        ],
+        "observable": "for every interruption point k (scripted driver panic at its k-th request, all k of the uninterrupted run): bytes of every file of the tree at every database request (snapshots taken from inside the mock) and after the run, leftover paths, status; oracle on the implementation alone: every original file holds its old or its complete new content at every snapshot and after the interruption; completion: no crash, no debris, exactly one final newline",
+        "exhaustive": True,
+        "explanation": "exhaustive: 16 tiny scripts x 0..12 trailing newlines (incl. the empty file, `halt`, outputs shorter than 8 bytes) through the real updater; random include trees x every interruption point",
+        "assumptions": ["OS-level atomicity / durability of rename and the effect of SIGKILL in the middle of a write to the TEMP file are outside the model (partial)", "library temp names (10 random digits) are assumed not to collide with tree files"],
+    },
     "C14": {
         "runs": [{"profile": "c14", "n_quick": 1500, "n_thorough": 30000, "nontrivial": "include", "oracle": "c14"}],
         "observable": "every record of parse_file with its file, line and chain of include sites (Display of Location), marker sequence | err kind + located chain; then the call trace of Runner::run_file on the tree (execution order)",
@@ -28,6 +39,7 @@ PROPS = {
         "runs": [
             {"profile": "updatecorner", "n_quick": 0, "n_thorough": 0, "nontrivial": "update"},
             {"profile": "update", "n_quick": 2500, "n_thorough": 60000, "nontrivial": "update"},
+            {"profile": "cliupd", "kind": "cli", "n_quick": 15, "n_thorough": 300, "nontrivial": "update"},
         ],
         "observable": "bytes of every file of the tree after Runner::update_test_file; oracle on the implementation alone (representable answers only): the rewritten tree parses, Runner::run_file with a fresh instance of the same scripted database returns Ok, a second update leaves every byte unchanged",
         "explanation": "random include trees with ~50% wrong expectations (see C07) + 5 corner cases at the excluded points of the theorems (values with non-ASCII edge white space, empty value, query error [retry] on an engine without column types); cases whose answers are not representable in the format (failing commands, three consecutive newlines in an error text / stdout, CR) are generated, compared with the model, and not judged by the re-run oracle",
@@ -54,10 +66,11 @@ PROPS = {
         "explanation": "abstract scripts over the full grammar (every record kind, every optional clause: retry, sort mode, label, inline / multi-line / any error, stdout block, conditions, connections, controls, comments, blank and whitespace-only lines) rendered under random layouts: blanks / tabs / NBSP / EM SPACE between header words, trailing blanks, LF or CRLF, with or without final newline, last record with or without terminating blank line",
     },
     "C05": {
-        "runs": [{"profile": "c05", "n_quick": 12000, "n_thorough": 250000, "nontrivial": "fmt"}],
+        "runs": [{"profile": "c05", "n_quick": 12000, "n_thorough": 250000, "nontrivial": "fmt"},
+                 {"profile": "cliupd", "kind": "cli", "n_quick": 15, "n_thorough": 300, "nontrivial": "update"}],
         "observable": "bytes written by Display for the parsed records (+ tail normalisation) and the records obtained by re-parsing them; metamorphic oracle on the implementation alone: parse(fmt s) ~ parse s, fmt(fmt s) = fmt s",
         "explanation": "all 18 repository fixtures; sweep of 300 duration tokens around every radix boundary of humantime's format (in sleep and in retry clauses of statement/system); random well-formed scripts under random layouts (C03 generator); line/token/byte mutations of them (parseable ones are formatted, the others counted as parse errors)",
-        "assumptions": ["the library-level writer is Display + `writeln!`; the CLI's --format path on real files is exercised by the C08 check"],
+        "assumptions": ["library level: Display + `writeln!` + tail normalisation; CLI level: `sqllogictest --format` on real file trees (bytes compared with the model's fmtFile per file, second run must change nothing)"],
     },
     "C04": {
         "runs": [
